@@ -695,6 +695,13 @@ func (s *ScopedKeyManager) DeriveFromKeyPathCache(
 		)
 	}
 
+	// An account without a private key (an imported extended public key)
+	// has nothing to derive a private key from, whatever the state of
+	// the manager.
+	if acctInfo.acctKeyPriv == nil {
+		return nil, managerError(ErrWatchingOnly, errWatchingOnly, nil)
+	}
+
 	watchOnly := s.rootManager.WatchOnly()
 	private := !s.rootManager.IsLocked() && !watchOnly
 
